@@ -700,6 +700,27 @@ pub fn check_c10(tier: Tier) -> i32 {
             Ok(_) => {}
         }
     }
+    // (c') the Rust output must compile against pdl-runtime: the harness build of the rust
+    // engine; a module rustc rejects is attributed to its state
+    {
+        let mut h = crate::rustgen::prepare(tier);
+        if !crate::rustgen::build(&mut h) {
+            return 2;
+        }
+        c.add("compiled:rust-modules", h.modules - h.excluded.iter().filter(|x| x.2.starts_with("rustc")).count());
+        for (id, en, why) in &h.excluded {
+            if !why.starts_with("rustc") {
+                continue; // generator panics are reported by (c)
+            }
+            let st = &h.states[*id];
+            let inl = rules::inline_groups(&st.desc).unwrap_or_else(|| st.desc.clone());
+            rep.report(Violation {
+                property: "C10".into(),
+                sig: format!("rust-output-does-not-compile error={} ctriggers={:?}", norm_rustc(why), compile_triggers(&inl)),
+                detail: json!({"state": id, "family": st.family, "endianness": en, "source": render::canonical(&st.desc), "rustc": why}),
+            });
+        }
+    }
     // python outputs: one interpreter compiles them all
     let py_checked = compile_python(&py_all, &mut rep);
     c.add("syntax-checked:python", py_checked);
@@ -711,6 +732,96 @@ pub fn check_c10(tier: Tier) -> i32 {
     ];
     let samples = vec![json!({"edit": "replace-by:..", "source": token_edits(&e.states[0].desc, None).get(7).map(|x| x.1.clone())})];
     finish(ev, rep, c, samples)
+}
+
+fn norm_rustc(why: &str) -> String {
+    // "rustc: shard_03/src/gen/m12_le.rs:10:5: error[E0425]: cannot find value `x_size` in this scope: ..."
+    let msg = match why.find("error") {
+        Some(p) => &why[p..],
+        None => why,
+    };
+    let mut out = String::new();
+    let mut in_tick = false;
+    for ch in msg.chars().take(110) {
+        match ch {
+            '`' => {
+                in_tick = !in_tick;
+                out.push('`');
+            }
+            _ if in_tick => {}
+            '0'..='9' if !out.ends_with("error[E") && !out.chars().last().map(|c| c.is_ascii_digit()).unwrap_or(false) => out.push(ch),
+            _ => out.push(ch),
+        }
+    }
+    out
+}
+
+/// trigger predicates of the known findings about uncompilable Rust output
+pub fn compile_triggers(d: &Desc) -> Vec<&'static str> {
+    let mut t: Vec<&'static str> = vec![];
+    let mut add = |x: &'static str| {
+        if !t.contains(&x) {
+            t.push(x)
+        }
+    };
+    for decl in &d.decls {
+        let fields = decl.fields();
+        for (i, f) in fields.iter().enumerate() {
+            match &f.kind {
+                FieldKind::Size { field_id, .. } | FieldKind::Count { field_id, .. } => {
+                    // declared after its target
+                    let target = fields.iter().position(|g| match &g.kind {
+                        FieldKind::Payload { .. } => field_id == "_payload_",
+                        FieldKind::Body => field_id == "_body_",
+                        _ => g.id() == Some(field_id.as_str()),
+                    });
+                    if target.map(|p| p < i).unwrap_or(false) {
+                        add("size-or-count-field-after-its-target");
+                    }
+                }
+                FieldKind::ElementSize { field_id, .. } => {
+                    if let Some(Field { kind: FieldKind::Array { elem, .. }, .. }) = fields.iter().find(|g| g.id() == Some(field_id.as_str())) {
+                        let is_struct = matches!(elem, Elem::Type(t2) if d.get(t2).map(|x| x.is_struct()).unwrap_or(false));
+                        if !is_struct {
+                            add("elementsize-of-scalar-or-enum-elements");
+                        }
+                    }
+                }
+                FieldKind::Array { elem: Elem::Type(t2), .. } => {
+                    if d.get(t2).map(|x| x.is_struct()).unwrap_or(false) && pdlmc_core::sizes::total_size(d, t2) == pdlmc_core::sizes::Size::Static(0) {
+                        add("array-of-zero-size-structs");
+                    }
+                }
+                FieldKind::Payload { .. } | FieldKind::Body => {
+                    if fields[i + 1..].iter().any(|g| !matches!(pdlmc_core::sizes::field_size(d, decl, g), pdlmc_core::sizes::Size::Static(_)))
+                        && pdlmc_core::sizes::field_size(d, decl, f) == pdlmc_core::sizes::Size::Unknown
+                    {
+                        add("unsized-payload-followed-by-a-non-constant-size-field");
+                    }
+                }
+                _ => {}
+            }
+        }
+        if let Some(p) = decl.parent().and_then(|p| d.get(p)) {
+            if p.payload().is_none() {
+                add("child-of-parent-without-payload");
+            }
+            // an ancestor has a non-Copy data field (array or struct typedef) that the child inherits
+            for a in d.ancestry(&decl.id).iter().skip(1) {
+                for f in a.fields() {
+                    let non_copy = match &f.kind {
+                        FieldKind::Array { .. } => true,
+                        FieldKind::Typedef { type_id, .. } => d.get(type_id).map(|x| x.is_struct()).unwrap_or(false),
+                        _ => false,
+                    };
+                    if non_copy {
+                        add("child-inherits-an-array-or-struct-field");
+                    }
+                }
+            }
+        }
+    }
+    t
 }
 
 /// trigger predicates of the known generator findings
